@@ -20,6 +20,8 @@
     spliceop <fmt> <item> <start> <end|N>        ->  ok <fmt> | E:<kind>     (end < start: bad-op)
     appendop <fmt> <item>                        ->  ok <fmt> | E:<kind>
     setsliceop <fmt> <a> <b> <item> <length>     ->  ok <fmt> | E:<kind>     (b < a: bad-op)
+    setitemop <fmt> <start> <item>               ->  ok <fmt> | E:<kind>
+    arrayfromtext <rows> <columns> <text>        ->  ok <numColumns>=<rows> | E:<kind>     array_from_text_rc
 -/
 import Curtsies.Wire
 import Curtsies.Model.FSArray
@@ -113,6 +115,12 @@ def fsaOps (args : List String) : Option String :=
     let b ← b.toNat?
     if b < a then none
     else pure (encExcept encFmt (setsliceOp md (← decFmt f) a b (← decItem fs) (← l.toNat?)))
+  | ["setitemop", f, a, fs] => do
+    pure (encExcept encFmt (setitemOp md (← decFmt f) (← a.toNat?) (← decItem fs)))
+  | ["arrayfromtext", rows, cols, t] => do
+    pure (match arrayFromTextRc md (← decText t) (← rows.toNat?) (← cols.toNat?) with
+      | .ok a => "ok " ++ toString a.numColumns ++ "=" ++ encRows a.rows
+      | .error e => "E:" ++ e.name)
   | _ => none
 
 end Curtsies.Driver
